@@ -1762,6 +1762,29 @@ def rule_dfa_config(rep, crate):
             rep.viol(rid, 'dfa-config:pattern-order', 'the patterns handed to the NFA compiler are not the leaves\' patterns in leaf order (adapters %s, reads leaves: %s)' % (bad, uses_leaves), loc(fn, t['line']))
 
 
+def rule_leaf_sites_complete(rep, crate):
+    """M-C13d: no leaf is built outside the three audited construction sites."""
+    rid = rep.rule('M-C13d', 'every Leaf::new in logos-codegen (outside tests) belongs to one of the audited construction sites of `generate`, i.e. its value receives the definition\'s own callback (`.callback(definition.callback)`), priority and variant kind: a leaf built on a side path (a fast path for one kind of definition) silently loses the user callback, so the callback never runs and its result never determines the item', floor=3)
+    fn = crate.fns.get(GEN)
+    if not rep.anchor(rid, 'fn logos_codegen::generate', fn is not None):
+        return
+    sites = find_sites(fn)
+    audited = {(s.new[0], s.new[1]['line']) for s in sites.values() if s.new is not None}
+    for f in crate.fns.values():
+        if re.search(r'::tests?::|^graph::export', f.name):
+            continue
+        for bi, t in find_calls(f, r'^leaf::Leaf::new$'):
+            k = '%s:Leaf::new' % f.name
+            rep.inst(rid, k, detail=dict(line=t['line']))
+            if f is not fn or (bi, t['line']) not in audited:
+                rep.viol(rid, 'leaf-without-callback:%s' % f.name, 'a Leaf is constructed in %s whose builder chain never receives the definition\'s callback: for definitions taking this path the user callback is dropped' % f.name, loc(f, t['line']))
+    # and each audited site consumes callback, priority and the variant kind
+    for root, s in sites.items():
+        for part, call in (('priority', s.priority), ('literal/Leaf::new', s.new)):
+            if call is None:
+                rep.viol(rid, 'site-incomplete:%s:%s' % (s.kind, part), 'the %s construction site does not consume the definition\'s %s' % (s.kind, part), loc(fn, s.callback[1]['line']))
+
+
 def rule_dfa_heuristics(rep, crate):
     """M-C01b: crate-wide who-may-call rule for the automaton options that trade exactness for coverage."""
     rid = rep.rule('M-C01b', 'no heuristic automaton option: nowhere in logos-codegen is a DFA/NFA configured with unicode_word_boundary(true) or quit bytes (the DFA would treat Unicode \\b as ASCII \\b and give up / mis-match on non-ASCII input instead of the pattern being rejected), with reverse(true) or with a custom look_matcher (different line terminator): what regex-automata cannot build exactly must stay a build error that the derive reports', floor=1)
